@@ -30,7 +30,7 @@ VERIF_SELFTEST="$tmp/selftest.json" bin/corscheck -property "$id" -tier thorough
 rc=$?
 if [ $rc -eq 0 ] && { [ $vrc -ne 0 ] || [ $src -ne 0 ] || [ $rrc -ne 0 ]; }; then
   echo "SELFTEST-FAILED property=$id (the checker did not behave as expected on its variant corpus / seeded changes; see below)"
-  tail -5 "$tmp/variants.log" "$tmp/seeds.log" "$tmp/refactors.log"
+  tail -n 5 "$tmp/variants.log" "$tmp/seeds.log" "$tmp/refactors.log"
   exit 2
 fi
 exit $rc
